@@ -216,14 +216,13 @@ package sample
 // ---- C08: the rules sampler applies the FIRST rule, in configuration order, that matches the trace.
 // Whether one rule matches is decided by ruleMatchesTrace / ruleMatchesSpanInTrace (by scope); here they are
 // deterministic readings of (trace, rule, nested-fields flag) - their own semantics are not under contract.
-//@ assume sample.ruleMatchesTrace function
-//@ assume sample.ruleMatchesSpanInTrace function
 //@ assume config.(*RulesBasedSamplerRule).String getter
 //@ spec ruleApplies(t *types.Trace, r *config.RulesBasedSamplerRule, nested bool) bool := ite(r.Scope == "span", ruleMatchesSpanInTrace(t, r, nested), ite(r.Scope == "trace" || r.Scope == "", ruleMatchesTrace(t, r, nested), true))
 //@ contract sample.(*RulesBasedSampler).GetSampleRate props C08 havocheap
 //@   arith math
 //@   requires s != nil && s.Config != nil && trace != nil
 //@   requires[rules-present] forall j int :: 0 <= j && j < len(s.Config.Rules) ==> s.Config.Rules[j] != nil
+//@   requires[spans-and-conditions-present] (forall k int :: 0 <= k && k < len(trace.GetSpans()) ==> trace.GetSpans()[k] != nil) && (forall j int, i int :: 0 <= j && j < len(s.Config.Rules) && 0 <= i && i < len(s.Config.Rules[j].Conditions) ==> s.Config.Rules[j].Conditions[i] != nil)
 //@   let rules = s.Config.Rules
 //@   let nested = s.Config.CheckNestedFields
 //@   ensures[no-rule-matches-keeps-at-rate-one] (forall j int :: 0 <= j && j < len(rules) ==> !ruleApplies(trace, rules[j], nested)) ==> rate == 1 && keep && reason == "no rule matched" && key == ""
@@ -235,6 +234,102 @@ package sample
 //@   ensures[downstream-sampler-decides] forall j int :: 0 <= j && j < len(rules) && ruleApplies(trace, rules[j], nested) && (forall k int :: 0 <= k && k < j ==> !ruleApplies(trace, rules[k], nested)) && rules[j].Sampler != nil && in(s.samplers, rules[j].String()) ==> (forall q int :: q == toInt(refOf(s.samplers[rules[j].String()])) ==> askedN(q) == old(askedN(q)) + 1)
 //@   loop 1 invariant[earlier-rules-did-not-match] s != nil && s.Config != nil && s.Config.Rules == rules && s.Config.CheckNestedFields == nested && (forall k int :: 0 <= k && k < iter ==> !ruleApplies(trace, rules[k], nested)) && (forall q int :: askedN(q) == old(askedN(q)))
 //@   modifies all(askedN)
+
+// ---- C08 / C09: what a condition reads from a span. A condition names one or more fields; the value is that of
+// the FIRST field, in the order written, that is present - on the root span for a field written root.X (skipped
+// when the trace has no root span yet), on the span itself otherwise. checkedOnlyRoot says that nothing but the
+// root span was consulted up to and including that field, i.e. that every other span of the trace reads the same:
+// that is what lets the callers stop looking at further spans, so it may be set only then (a function that never
+// sets it is slower, not wrong).
+//@ contract config.(*RulesBasedSamplerCondition).GetComputedField inline
+//@ spec isRootField(f string) bool := strings.HasPrefix(f, "root.")
+//@ spec fieldHit(t *types.Trace, s *types.Span, f string) bool := ite(isRootField(f), t.RootSpan != nil && t.RootSpan.Data.Exists(f[5:]), s.Data.Exists(f))
+//@ spec fieldVal(t *types.Trace, s *types.Span, f string) any := ite(isRootField(f), t.RootSpan.Data.Get(f[5:]), s.Data.Get(f))
+// gjson / encoding/json only read their arguments
+//@ assume github.com/tidwall/gjson.Get
+//@ assume github.com/tidwall/gjson.Result.Exists
+//@ assume github.com/tidwall/gjson.Result.String
+//@ contract sample.extractValueFromSpan props C08,C09 function opaque
+//@   arith math
+//@   requires trace != nil && span != nil && condition != nil
+// looking inside JSON-encoded nested fields (gjson) is not modelled
+//@   domain[nested-lookup-off] !checkNestedFields
+//@   let fs = condition.Fields
+//@   let descendants = condition.Field == "?.NUM_DESCENDANTS"
+// result0 = value, result1 = exists, result2 = checkedOnlyRoot
+//@   ensures[descendant-count-is-read-from-the-trace] descendants ==> result1 && result2 && isInt64(result0) && anyInt(result0) == toInt(trace.DescendantCount())
+//@   ensures[no-field-present-means-absent] !descendants && (forall j int :: 0 <= j && j < len(fs) ==> !fieldHit(trace, span, fs[j])) ==> !result1 && result0 == nil && (result2 ==> (forall i int :: 0 <= i && i < len(fs) ==> isRootField(fs[i])))
+//@   ensures[the-first-field-present-gives-the-value] !descendants ==> (forall j int :: 0 <= j && j < len(fs) && fieldHit(trace, span, fs[j]) && (forall i int :: 0 <= i && i < j ==> !fieldHit(trace, span, fs[i])) ==> result1 && result0 == fieldVal(trace, span, fs[j]) && (result2 ==> (forall i int :: 0 <= i && i <= j ==> isRootField(fs[i]))))
+//@   ensures[a-value-comes-from-the-first-field-present] !descendants && result1 ==> (exists j int :: 0 <= j && j < len(fs) && fieldHit(trace, span, fs[j]) && (forall i int :: 0 <= i && i < j ==> !fieldHit(trace, span, fs[i])) && result0 == fieldVal(trace, span, fs[j]) && (result2 ==> (forall i int :: 0 <= i && i <= j ==> isRootField(fs[i]))))
+//@   ensures[absent-means-no-field-is-present] !descendants && !result1 ==> (forall j int :: 0 <= j && j < len(fs) ==> !fieldHit(trace, span, fs[j])) && result0 == nil && (result2 ==> (forall i int :: 0 <= i && i < len(fs) ==> isRootField(fs[i])))
+//@   loop 1 invariant[earlier-fields-are-absent] (forall i int :: 0 <= i && i < iter ==> !fieldHit(trace, original, fs[i])) && (checkedOnlyRoot ==> (forall i int :: 0 <= i && i < iter ==> isRootField(fs[i]))) && toInt(original) == toInt(old(span)) && condition.Fields == fs
+//@   modifies nothing
+
+// what makes the early exit of the callers sound: when only the root span was consulted, every span reads the same
+//@ lemma C08.root-only-reads-the-same props C08,C09 : forall t *types.Trace, s1 *types.Span, s2 *types.Span, c *config.RulesBasedSamplerCondition :: t != nil && s1 != nil && s2 != nil && c != nil && nth(2, extractValueFromSpan(t, s1, c, false)) ==> nth(0, extractValueFromSpan(t, s2, c, false)) == nth(0, extractValueFromSpan(t, s1, c, false)) && nth(1, extractValueFromSpan(t, s2, c, false)) == nth(1, extractValueFromSpan(t, s1, c, false))
+
+// the untyped operators (no Datatype): the comparison is compare()'s, read per operator
+//@ contract sample.conditionMatchesValue props C08,C09 function opaque
+//@   arith math
+//@   requires condition != nil
+//@   let op = condition.Operator
+//@   ensures[an-absent-field-matches-only-not-exists] !exists ==> result == (op == "not-exists")
+//@   ensures[exists-matches-a-present-field] (exists && op == "exists") ==> result
+//@   ensures[not-exists-does-not-match-a-present-field] (exists && op == "not-exists") ==> !result
+// two numbers (of any wire type), two strings or two booleans are ordered; the six comparison operators read that order
+//@   domain[exactly-representable-integers] (isInt64(value) || isInt(value) || isUint64(value) ==> -9007199254740992 <= anyInt(value) && anyInt(value) <= 9007199254740992) && (isInt64(condition.Value) || isInt(condition.Value) || isUint64(condition.Value) ==> -9007199254740992 <= anyInt(condition.Value) && anyInt(condition.Value) <= 9007199254740992)
+//@   let cv = condition.Value
+//@   let ordered = (isNumeric(value) && isNumeric(cv)) || (isString(value) && isString(cv)) || (isBool(value) && isBool(cv))
+//@   let ord = ite(isNumeric(value) && isNumeric(cv), ite(numOf(value) < numOf(cv), -1, ite(numOf(value) > numOf(cv), 1, 0)), ite(isString(value) && isString(cv), ite(anyString(value) < anyString(cv), -1, ite(anyString(value) == anyString(cv), 0, 1)), ite(anyBool(value) == anyBool(cv), 0, ite(anyBool(cv), -1, 1))))
+//@   ensures[equal] (exists && ordered && op == config.EQ) ==> result == (ord == 0)
+//@   ensures[not-equal] (exists && ordered && op == config.NEQ) ==> result == (ord != 0)
+//@   ensures[greater] (exists && ordered && op == config.GT) ==> result == (ord == 1)
+//@   ensures[greater-or-equal] (exists && ordered && op == config.GTE) ==> result == (ord >= 0)
+//@   ensures[less] (exists && ordered && op == config.LT) ==> result == (ord == -1)
+//@   ensures[less-or-equal] (exists && ordered && op == config.LTE) ==> result == (ord <= 0)
+//@   ensures[a-number-and-a-string-never-match] (exists && ((isNumeric(value) && isString(cv)) || (isString(value) && isNumeric(cv))) && (op == config.EQ || op == config.NEQ || op == config.GT || op == config.GTE || op == config.LT || op == config.LTE)) ==> !result
+//@   ensures[any-other-operator-matches-nothing] (op != config.EQ && op != config.NEQ && op != config.GT && op != config.GTE && op != config.LT && op != config.LTE && op != config.Exists && op != config.NotExists) ==> !result
+//@   modifies nothing
+
+// ---- C08 / C09: whether a rule matches a trace. A condition holds on a span when the value the condition reads
+// there (extractValueFromSpan) satisfies its operator - the typed comparison function built at start-up when the
+// condition has a Datatype or a text operator (condition.Matches), the untyped comparison otherwise.
+//   scope span : the rule matches when ONE span satisfies EVERY condition;
+//   scope trace: the rule matches when EVERY condition is satisfied by SOME span (has-root-span is about the trace).
+// Both are statements about the SET of spans: the order in which the spans arrived cannot matter.
+//@ purefn config.RulesBasedSamplerCondition.Matches
+//@ spec condOn(t *types.Trace, s *types.Span, c *config.RulesBasedSamplerCondition, nested bool) bool := ite(c.Matches == nil, conditionMatchesValue(c, nth(0, extractValueFromSpan(t, s, c, nested)), nth(1, extractValueFromSpan(t, s, c, nested))), c.Matches(nth(0, extractValueFromSpan(t, s, c, nested)), nth(1, extractValueFromSpan(t, s, c, nested))))
+//@ contract sample.ruleMatchesSpanInTrace props C08,C09 function opaque
+//@   arith math
+//@   assert uses C08.root-only-reads-the-same
+//@   requires trace != nil && rule != nil
+//@   requires[spans-and-conditions-present] (forall k int :: 0 <= k && k < len(trace.GetSpans()) ==> trace.GetSpans()[k] != nil) && (forall j int :: 0 <= j && j < len(rule.Conditions) ==> rule.Conditions[j] != nil)
+//@   domain[nested-lookup-off] !checkNestedFields
+//@   let spans = trace.GetSpans()
+//@   let conds = rule.Conditions
+//@   ensures[a-rule-without-conditions-matches] conds == nil ==> result
+//@   ensures[a-match-means-one-span-satisfies-every-condition] conds != nil && result ==> (exists k int :: 0 <= k && k < len(spans) && (forall j int :: 0 <= j && j < len(conds) ==> condOn(trace, spans[k], conds[j], false)))
+//@   ensures[no-match-means-every-span-fails-some-condition] conds != nil && !result ==> (forall k int :: 0 <= k && k < len(spans) ==> (exists j int :: 0 <= j && j < len(conds) && !condOn(trace, spans[k], conds[j], false)))
+//@   loop 1 invariant[no-earlier-span-satisfies-every-condition] rule.Conditions == conds && (forall k int :: 0 <= k && k < iter ==> (exists j int :: 0 <= j && j < len(conds) && !condOn(trace, spans[k], conds[j], false)))
+//@   loop 2 invariant[conditions-so-far-hold-on-this-span] rule.Conditions == conds && span != nil && ruleMatched && (forall j int :: 0 <= j && j < iter ==> condOn(trace, span, conds[j], false))
+//@   modifies nothing
+
+//@ assume config.TryConvertToBool function
+//@ spec condOnTrace(t *types.Trace, c *config.RulesBasedSamplerCondition) bool := ite(c.Operator == config.HasRootSpan, (t.RootSpan != nil) == config.TryConvertToBool(c.Value), exists k int :: 0 <= k && k < len(t.GetSpans()) && condOn(t, t.GetSpans()[k], c, false))
+//@ contract sample.ruleMatchesTrace props C08,C09 function opaque
+//@   arith math
+//@   assert uses C08.root-only-reads-the-same
+//@   requires t != nil && rule != nil
+//@   requires[spans-and-conditions-present] (forall k int :: 0 <= k && k < len(t.GetSpans()) ==> t.GetSpans()[k] != nil) && (forall j int :: 0 <= j && j < len(rule.Conditions) ==> rule.Conditions[j] != nil)
+//@   domain[nested-lookup-off] !checkNestedFields
+//@   let spans = t.GetSpans()
+//@   let conds = rule.Conditions
+//@   ensures[a-rule-without-conditions-matches] conds == nil ==> result
+//@   ensures[a-match-means-every-condition-is-satisfied-by-some-span] conds != nil && result ==> (forall j int :: 0 <= j && j < len(conds) ==> condOnTrace(t, conds[j]))
+//@   ensures[no-match-means-some-condition-is-satisfied-by-no-span] conds != nil && !result ==> (exists j int :: 0 <= j && j < len(conds) && !condOnTrace(t, conds[j]))
+//@   loop 1 invariant[counted-exactly-the-conditions-satisfied] rule.Conditions == conds && 0 <= matched && matched <= iter && (matched == iter ==> (forall j int :: 0 <= j && j < iter ==> condOnTrace(t, conds[j]))) && (matched < iter ==> (exists j int :: 0 <= j && j < iter && !condOnTrace(t, conds[j])))
+//@   loop 2 invariant[no-earlier-span-satisfies-the-condition] rule.Conditions == conds && condition != nil && toInt(condition) == toInt(conds[iter1]) && condition.Operator != config.HasRootSpan && 0 <= matched && matched <= iter1 && (matched == iter1 ==> (forall j int :: 0 <= j && j < iter1 ==> condOnTrace(t, conds[j]))) && (matched < iter1 ==> (exists j int :: 0 <= j && j < iter1 && !condOnTrace(t, conds[j]))) && (forall k int :: 0 <= k && k < iter ==> !condOn(t, spans[k], condition, false))
+//@   modifies nothing
 
 // ---- C09: a comparison in a rule depends on the NUMBER a span carries, not on the Go type the wire encoding
 // produced for it (JSON gives float64, msgpack gives int64 / uint64 / float32 / float64, YAML rule values are
